@@ -13,7 +13,8 @@ LEVEL = 'exploration'
 BUDGET_S = {'quick': 300, 'thorough': 1500}
 RULE = ('ordered pairs x1 < x2 of one varied parameter with everything else fixed: (bht) gradient i or depth on 1..4-segment '
         'layouts (same side of the unit-convention thresholds), reservoir module on the read model; (tdp) drawdown rate '
-        'under the percentage-drawdown model, every time step; (flow) flow rate per well with the Ramey model on, full run, '
+        'under the percentage-drawdown model, every time step; (flow) flow rate per well with the Ramey model on, full run, plus '
+        'ladders of 400 neighbouring flow rates (ratio 1.002..1.03) through the wellbore heat-loss function the run uses, every time step; '
         'initial production temperature; (wellcost) exhaustive 1 m grid 500..7000 m x all 17 correlations through the '
         'correlation itself and through the per-well cost routine, plus run-level depth pairs; (cost) every cost input and '
         'cost adjustment factor (values drawn boundary- and default-biased) on generated full runs: NPV must not increase '
@@ -45,6 +46,7 @@ def plan(tier, seed, shards):
         specs.append({'kind': 'bht', 'n': 300 if q else 8000, 'seed': seed * 1000 + s})
         specs.append({'kind': 'tdp', 'n': 120 if q else 3000, 'seed': seed * 1000 + 100 + s})
         specs.append({'kind': 'flow', 'n': 12 if q else 400, 'seed': seed * 1000 + 200 + s})
+        specs.append({'kind': 'ramey', 'n': 40 if q else 1500, 'seed': seed * 1000 + 400 + s})
         specs.append({'kind': 'cost', 'n': 50 if q else 1200, 'seed': seed * 1000 + 300 + s, 'tier': tier})
     return specs
 
@@ -208,6 +210,53 @@ def _eval_flow(c, rec):
         rec.violation('initial_production_temperature_decreases_with_flow', c, {'x1': c['x1'], 'x2': c['x2'], 'T0_x1': out[0], 'T0_x2': out[1]})
 
 
+# ------------------------------------------------------------------ flow-rate ladders on the wellbore heat-loss function itself
+
+@st.composite
+def ramey_ladders(draw):
+    """the function the full run uses for the production-well temperature drop, over a fine ladder of flow rates (steps of a few
+    per mille up to a few per cent): a response that is monotone for widely spaced flows but steps back inside a narrow window
+    is only seen by neighbouring flows."""
+    return {'kind': 'ramey', 'krock': draw(gen.nice_floats(1.5, 5.0)), 'rhorock': draw(gen.nice_floats(2000, 3500)),
+            'cprock': draw(gen.nice_floats(700, 1200)), 'welldiam': draw(gen.nice_floats(0.10, 0.40)),
+            'life': draw(st.integers(2, 40)), 'tspy': draw(st.integers(1, 6)), 'util': draw(gen.nice_floats(0.5, 1.0)),
+            'cpwater': draw(gen.nice_floats(4000, 4700)), 'Trock': draw(gen.nice_floats(100, 375)),
+            'gradient': draw(gen.nice_floats(0.025, 0.1)), 'depth': draw(gen.nice_floats(1000, 7000)),
+            'lo': draw(gen.nice_floats(1, 40)), 'ratio': draw(st.sampled_from([1.002, 1.005, 1.01, 1.03])), 'steps': 400}
+
+
+def _eval_ramey(c, rec):
+    worker.init_worker()
+    from geophires_x.WellBores import RameyCalc
+    n = c['life'] * c['tspy']
+    tv = np.linspace(0, c['life'], n + 1)[: max(n, 2)]
+    flows, f = [], c['lo']
+    while len(flows) < c['steps'] and f <= 500.0:
+        flows.append(f)
+        f *= c['ratio']
+    tres = np.full(len(tv), c['Trock'])
+    drops = []
+    with np.errstate(all='ignore'):
+        for q in flows:
+            drops.append(np.asarray(RameyCalc(c['krock'], c['rhorock'], c['cprock'], c['welldiam'], tv, c['util'], q, c['cpwater'], c['Trock'],
+                                              tres, c['gradient'], c['depth']), dtype=float))
+    d = np.vstack(drops)  # [flow, time]
+    ok_cols = np.all(np.isfinite(d), axis=0)
+    rec.case(c, nontrivial=bool(ok_cols.any()) and len(flows) >= 50, labels=['ramey_flow_ladder'], key=c,
+             sample={'flows': [flows[0], flows[-1]], 'steps': len(flows), 'drop_first_last': [float(d[0, 0]), float(d[-1, 0])]})
+    if not ok_cols.any():
+        return
+    dd = d[:, ok_cols]
+    rise = dd[1:] - dd[:-1]  # production temperature = reservoir temperature - drop: the drop must not grow with flow
+    tol = 1e-9 * np.maximum(1.0, np.abs(dd[:-1]))
+    badm = rise > tol
+    if badm.any():
+        i, j = np.argwhere(badm)[0]
+        rec.violation('initial_production_temperature_decreases_with_flow', c,
+                      {'flow_1': flows[i], 'flow_2': flows[i + 1], 'temperature_drop_1': float(dd[i, j]), 'temperature_drop_2': float(dd[i + 1, j]),
+                       'time_index': int(j), 'level': 'wellbore heat-loss function'})
+
+
 # ------------------------------------------------------------------ cost pairs (full runs)
 
 @st.composite
@@ -319,7 +368,7 @@ def _explain_cost_decrease(e, sp):
     return 'bicycle_capital_multiplier_not_positive' if m is not None and m <= 1e-12 else 'none'
 
 
-EVALS = {'bht': (bht_pairs, _eval_bht), 'tdp': (tdp_pairs, _eval_tdp), 'flow': (flow_pairs, _eval_flow)}
+EVALS = {'bht': (bht_pairs, _eval_bht), 'tdp': (tdp_pairs, _eval_tdp), 'flow': (flow_pairs, _eval_flow), 'ramey': (ramey_ladders, _eval_ramey)}
 
 
 def run_shard(spec, rec):
